@@ -54,317 +54,325 @@ def run(eng, R):
     ini = get_func(p, MF, "_init_nexus")
     src = eng.csrc(ini)   # canonical form; placeholders `_i` / `_f` (loop over the members), `_n` (a name list), `_p` (a parameter node)
     # ---------------------------------------------------------------- P-sum
-    ok = src.like("for _i, _f in enumerate(self._fits): self._nexus.add(Alias(_f._nexus.get('cost'), 'cost%s' % _i), False)")
-    R.ob("P-sum", "MultiFit._init_nexus:cost aliases", ok, (ini.file, ini.lineno), "every member must contribute an alias `cost<i>` of its own cost node, unconditionally")
-    ok = common.like_any(src, "self._cost_function = MultiCostFunction([_g._cost_function for _g in self._fits], ['cost%s' % _k for _k in range(len(self._fits))])")
-    R.ob("P-sum", "MultiFit._init_nexus:cost arguments", ok, (ini.file, ini.lineno), "the multi cost must take exactly the arguments cost0 … cost<n-1>")
-    ok = common.like_any(src, "self._nexus.add_alias('cost', self._nexus.add_function(self._cost_function, self._cost_function.name, self._cost_function.arg_names).name)",
-                         ["_c = self._nexus.add_function(self._cost_function, self._cost_function.name, self._cost_function.arg_names)", "self._nexus.add_alias('cost', _c.name)"])
-    R.ob("P-sum", "MultiFit._init_nexus:cost node", ok, (ini.file, ini.lineno), "the multi cost node must be wired to the cost function's own argument names and aliased as 'cost'")
-    mc = p.find_class("MultiCostFunction")
-    cs = mc.find_method("cost_sum")
-    rs = return_exprs(cs.node)
-    ok = len(rs) == 1 and _txt(rs[0][1]) in ("np.sum(single_costs)", "sum(single_costs)") and cs.node.args.vararg is not None and cs.node.args.vararg.arg == "single_costs" and not cs.node.args.args
-    R.ob("P-sum", "MultiCostFunction.cost_sum", ok, (cs.file, cs.lineno), "the multi cost must be the plain sum of all its arguments")
-    mi = mc.find_method("__init__")
-    msrc = _txt(mi.node)
-    ok = "cost_function=MultiCostFunction.cost_sum" in msrc and "arg_names=cost_function_names" in msrc and "add_determinant_cost=False" in msrc
-    R.ob("P-sum", "MultiCostFunction.__init__", ok, (mi.file, mi.lineno), "MultiCostFunction must wrap cost_sum over the given names and must not add a determinant term of its own")
-    ok = common.like_any(src, ["self._nexus.add_function(lambda *log_dets: np.sum(log_dets), 'total_cov_mat_log_determinant', _n, existing_behavior='replace')", "_n = []",
-                               "if _f._nexus.get('total_cov_mat_log_determinant') is not None:", "_n.append('total_cov_mat_log_determinant%s' % _i)"])
-    R.ob("P-sum", "MultiFit._init_nexus:log determinant", ok, (ini.file, ini.lineno), "the combined log-determinant must be the sum over the members that have one")
+    with R.guard("Psum"):
+        ok = src.like("for _i, _f in enumerate(self._fits): self._nexus.add(Alias(_f._nexus.get('cost'), 'cost%s' % _i), False)")
+        R.ob("P-sum", "MultiFit._init_nexus:cost aliases", ok, (ini.file, ini.lineno), "every member must contribute an alias `cost<i>` of its own cost node, unconditionally")
+        ok = common.like_any(src, "self._cost_function = MultiCostFunction([_g._cost_function for _g in self._fits], ['cost%s' % _k for _k in range(len(self._fits))])")
+        R.ob("P-sum", "MultiFit._init_nexus:cost arguments", ok, (ini.file, ini.lineno), "the multi cost must take exactly the arguments cost0 … cost<n-1>")
+        ok = common.like_any(src, "self._nexus.add_alias('cost', self._nexus.add_function(self._cost_function, self._cost_function.name, self._cost_function.arg_names).name)",
+                             ["_c = self._nexus.add_function(self._cost_function, self._cost_function.name, self._cost_function.arg_names)", "self._nexus.add_alias('cost', _c.name)"])
+        R.ob("P-sum", "MultiFit._init_nexus:cost node", ok, (ini.file, ini.lineno), "the multi cost node must be wired to the cost function's own argument names and aliased as 'cost'")
+        mc = p.find_class("MultiCostFunction")
+        cs = mc.find_method("cost_sum")
+        rs = return_exprs(cs.node)
+        ok = len(rs) == 1 and _txt(rs[0][1]) in ("np.sum(single_costs)", "sum(single_costs)") and cs.node.args.vararg is not None and cs.node.args.vararg.arg == "single_costs" and not cs.node.args.args
+        R.ob("P-sum", "MultiCostFunction.cost_sum", ok, (cs.file, cs.lineno), "the multi cost must be the plain sum of all its arguments")
+        mi = mc.find_method("__init__")
+        msrc = _txt(mi.node)
+        ok = "cost_function=MultiCostFunction.cost_sum" in msrc and "arg_names=cost_function_names" in msrc and "add_determinant_cost=False" in msrc
+        R.ob("P-sum", "MultiCostFunction.__init__", ok, (mi.file, mi.lineno), "MultiCostFunction must wrap cost_sum over the given names and must not add a determinant term of its own")
+        ok = common.like_any(src, ["self._nexus.add_function(lambda *log_dets: np.sum(log_dets), 'total_cov_mat_log_determinant', _n, existing_behavior='replace')", "_n = []",
+                                   "if _f._nexus.get('total_cov_mat_log_determinant') is not None:", "_n.append('total_cov_mat_log_determinant%s' % _i)"])
+        R.ob("P-sum", "MultiFit._init_nexus:log determinant", ok, (ini.file, ini.lineno), "the combined log-determinant must be the sum over the members that have one")
 
     # ---------------------------------------------------------------- P-par
-    ok = "self._combined_parameter_node_dict[_par_node] = _fit_i._nexus.get(_par_node)" in src
-    R.ob("P-par", "MultiFit._init_nexus:collect", ok, (ini.file, ini.lineno), "combined parameters must be collected by name from the members' graphs")
-    ok = src.like("for _p in self._combined_parameter_node_dict.values(): self._nexus.add(_p) for _g in self._fits: if _p.name in _g.parameter_names: _g._nexus.add(_p, existing_behavior='replace')")
-    R.ob("P-par", "MultiFit._init_nexus:replace", ok, (ini.file, ini.lineno),
-         "each combined parameter node must be added to the multi graph and must replace the same-named node in every member that has this parameter")
-    ok = "self._nexus.add(Array(self._combined_parameter_node_dict.values(), 'parameter_values'), existing_behavior='replace')" in src
-    R.ob("P-par", "MultiFit._init_nexus:parameter_values", ok, (ini.file, ini.lineno), "the multi 'parameter_values' node must be the array of the combined nodes")
+    with R.guard("Ppar"):
+        ok = "self._combined_parameter_node_dict[_par_node] = _fit_i._nexus.get(_par_node)" in src
+        R.ob("P-par", "MultiFit._init_nexus:collect", ok, (ini.file, ini.lineno), "combined parameters must be collected by name from the members' graphs")
+        ok = src.like("for _p in self._combined_parameter_node_dict.values(): self._nexus.add(_p) for _g in self._fits: if _p.name in _g.parameter_names: _g._nexus.add(_p, existing_behavior='replace')")
+        R.ob("P-par", "MultiFit._init_nexus:replace", ok, (ini.file, ini.lineno),
+             "each combined parameter node must be added to the multi graph and must replace the same-named node in every member that has this parameter")
+        ok = "self._nexus.add(Array(self._combined_parameter_node_dict.values(), 'parameter_values'), existing_behavior='replace')" in src
+        R.ob("P-par", "MultiFit._init_nexus:parameter_values", ok, (ini.file, ini.lineno), "the multi 'parameter_values' node must be the array of the combined nodes")
 
     # ---------------------------------------------------------------- P-part
-    sh = get_func(p, MF, "_init_shared_error_nodes")
-    ssrc = _txt(sh.node)
-    loops = _loops_over(sh.node, "enumerate(self._fits)")
-    # the partition loop: one if/else per member whose else-branch keeps the member's own cost argument
-    part = [l for l in loops if any(isinstance(s, ast.If) and s.orelse and "_cost_names" in _txt(ast.Module(body=s.orelse, type_ignores=[])) for s in l.body)]
-    ok = len(part) == 1
-    R.ob("P-part", "_init_shared_error_nodes:partition loop", ok, (sh.file, sh.lineno), "one loop over all members must partition them by is_chi2")
-    if ok:
-        lp = part[0]
-        iv, fv = lp.target.elts[0].id, lp.target.elts[1].id
-        i = [s for s in lp.body if isinstance(s, ast.If) and s.orelse and "_cost_names" in _txt(ast.Module(body=s.orelse, type_ignores=[]))][0]
-        R.ob("P-part", "_init_shared_error_nodes:partition test", _txt(i.test) == "%s._cost_function.is_chi2" % fv and len(lp.body) == 1, (sh.file, i.lineno),
-             "the partition must be exactly `if member cost is chi2: joint part else: own cost argument` (found `%s`): a member whose cost is not a chi2 but which passes the test "
-             "is absorbed into the shared chi2 and loses its own cost" % _txt(i.test))
-        chi = _txt(ast.Module(body=i.body, type_ignores=[]))
-        oth = _txt(ast.Module(body=i.orelse, type_ignores=[]))
-        ok1 = "_fit_index_to_data_index[%s] = len(_data_indices) - 1" % iv in chi and "_data_indices.append(_data_indices[-1] + %s.data_size)" % fv in chi
-        R.ob("P-part", "_init_shared_error_nodes:data slots", ok1 and "_data_indices" not in oth and "_fit_index_to_data_index" not in oth, (sh.file, i.lineno),
-             "each chi2 member takes the next data slot (edge = previous edge + its data size); other members take none")
-        need = ["_y_data_names.append('y_data%%s' %% %s)" % iv, "_y_model_names.append('y_model%%s' %% %s)" % iv, "_y_cov_mat_names.append('y_cov_mat%%s' %% %s)" % iv,
-                "_x_cov_mat_names.append('x_cov_mat%%s' %% %s)" % iv, "_derivative_names.append('derivatives%%s' %% %s)" % iv, "Alias(%s._nexus.get('y_model'), 'y_model%%s' %% %s)" % (fv, iv),
-                "Alias(%s._nexus.get('y_total_cov_mat'), 'y_cov_mat%%s' %% %s)" % (fv, iv), "Alias(%s._nexus.get('x_total_cov_mat'), 'x_cov_mat%%s' %% %s)" % (fv, iv)]
-        miss = [x for x in need if x not in chi]
-        # every list is appended exactly once per chi2 member, unconditionally within the branch (the XY / non-XY split only chooses the node kind)
-        uncond = True
-        for nm in ("_y_data_names", "_y_model_names", "_y_cov_mat_names", "_x_cov_mat_names", "_derivative_names"):
-            apps = [c for s in i.body for c in ast.walk(s) if isinstance(c, ast.Call) and isinstance(c.func, ast.Attribute) and c.func.attr == "append" and _txt(c.func.value) == nm]
-            uncond = uncond and len(apps) == 1 and not [1 for c in apps for _ in common.guard_conditions_inside(i, c) if "is_chi2" not in _txt(_[0])]
-        R.ob("P-part", "_init_shared_error_nodes:joint inputs", not miss and uncond, (sh.file, i.lineno),
-             "each chi2 member must append its y data, y model, y covariance, x covariance and derivative node names exactly once (missing: %s)" % miss)
-        R.ob("P-part", "_init_shared_error_nodes:no own cost for chi2 members", "_cost_names" not in chi and "_cost_functions" not in chi, (sh.file, i.lineno),
-             "a chi2 member must not keep its own cost argument next to the shared cost (it would be counted twice)")
-        R.ob("P-part", "_init_shared_error_nodes:own cost for other members", "_cost_functions.append(%s._cost_function)" % fv in oth and "_cost_names.append('cost%%s' %% %s)" % iv in oth, (sh.file, i.lineno),
-             "a non-chi2 member must keep its own cost argument cost<i>")
-    ok = "_cost_functions.append(self._shared_cost_function)" in ssrc and "_cost_names.append(self._shared_cost_function.name)" in ssrc and ssrc.count("_cost_names.append(self._shared_cost_function.name)") == 1 \
-        and "self._cost_function = MultiCostFunction(_cost_functions, _cost_names)" in ssrc \
-        and "self._nexus.add_function(self._shared_cost_function, self._shared_cost_function.name, self._shared_cost_function.arg_names)" in ssrc
-    R.ob("P-part", "_init_shared_error_nodes:shared cost", ok, (sh.file, sh.lineno), "the shared cost must be added once, wired to its own argument names, and the multi cost rebuilt from the partition")
-    # constraint cost of the sharing members (SharedCostFunction is built without constraint cost)
-    scf = p.find_class("SharedCostFunction").find_method("__init__")
-    shared_has_constraints = "add_constraint_cost=False" not in _txt(scf.node)
-    cn = None
-    try:
-        cn = _nested(sh, "_member_constraint_cost")
-    except AnalysisError:
-        pass
-    ok = shared_has_constraints
-    if cn is not None:
-        csrc = _txt(cn)
-        ok = "for _par_vals, _par_constraints in zip(values_and_constraints[::2], values_and_constraints[1::2]): for _par_constraint in _par_constraints: _cost += _par_constraint.cost(_par_vals)" in csrc \
-            and "for _i in _fit_index_to_data_index: for _node_name in ('parameter_values', 'parameter_constraints'):" in ssrc \
-            and "Alias(self._fits[_i]._nexus.get(_node_name), '%s%s' % (_node_name, _i))" in ssrc and "_member_constraint_names.append('%s%s' % (_node_name, _i))" in ssrc \
-            and "self._nexus.add_function(_member_constraint_cost, 'member_constraint_cost', _member_constraint_names)" in ssrc \
-            and ssrc.count("_cost_names.append('member_constraint_cost')") == 1
-    R.ob("P-part", "_init_shared_error_nodes:member constraints", ok, (sh.file, sh.lineno),
-         "the shared cost function carries no constraint term: the constraint cost of every sharing member (its own parameter values and constraints) must enter the multi cost once")
+    with R.guard("Ppart"):
+        sh = get_func(p, MF, "_init_shared_error_nodes")
+        ssrc = _txt(sh.node)
+        loops = _loops_over(sh.node, "enumerate(self._fits)")
+        # the partition loop: one if/else per member whose else-branch keeps the member's own cost argument
+        part = [l for l in loops if any(isinstance(s, ast.If) and s.orelse and "_cost_names" in _txt(ast.Module(body=s.orelse, type_ignores=[])) for s in l.body)]
+        ok = len(part) == 1
+        R.ob("P-part", "_init_shared_error_nodes:partition loop", ok, (sh.file, sh.lineno), "one loop over all members must partition them by is_chi2")
+        if ok:
+            lp = part[0]
+            iv, fv = lp.target.elts[0].id, lp.target.elts[1].id
+            i = [s for s in lp.body if isinstance(s, ast.If) and s.orelse and "_cost_names" in _txt(ast.Module(body=s.orelse, type_ignores=[]))][0]
+            R.ob("P-part", "_init_shared_error_nodes:partition test", _txt(i.test) == "%s._cost_function.is_chi2" % fv and len(lp.body) == 1, (sh.file, i.lineno),
+                 "the partition must be exactly `if member cost is chi2: joint part else: own cost argument` (found `%s`): a member whose cost is not a chi2 but which passes the test "
+                 "is absorbed into the shared chi2 and loses its own cost" % _txt(i.test))
+            chi = _txt(ast.Module(body=i.body, type_ignores=[]))
+            oth = _txt(ast.Module(body=i.orelse, type_ignores=[]))
+            ok1 = "_fit_index_to_data_index[%s] = len(_data_indices) - 1" % iv in chi and "_data_indices.append(_data_indices[-1] + %s.data_size)" % fv in chi
+            R.ob("P-part", "_init_shared_error_nodes:data slots", ok1 and "_data_indices" not in oth and "_fit_index_to_data_index" not in oth, (sh.file, i.lineno),
+                 "each chi2 member takes the next data slot (edge = previous edge + its data size); other members take none")
+            need = ["_y_data_names.append('y_data%%s' %% %s)" % iv, "_y_model_names.append('y_model%%s' %% %s)" % iv, "_y_cov_mat_names.append('y_cov_mat%%s' %% %s)" % iv,
+                    "_x_cov_mat_names.append('x_cov_mat%%s' %% %s)" % iv, "_derivative_names.append('derivatives%%s' %% %s)" % iv, "Alias(%s._nexus.get('y_model'), 'y_model%%s' %% %s)" % (fv, iv),
+                    "Alias(%s._nexus.get('y_total_cov_mat'), 'y_cov_mat%%s' %% %s)" % (fv, iv), "Alias(%s._nexus.get('x_total_cov_mat'), 'x_cov_mat%%s' %% %s)" % (fv, iv)]
+            miss = [x for x in need if x not in chi]
+            # every list is appended exactly once per chi2 member, unconditionally within the branch (the XY / non-XY split only chooses the node kind)
+            uncond = True
+            for nm in ("_y_data_names", "_y_model_names", "_y_cov_mat_names", "_x_cov_mat_names", "_derivative_names"):
+                apps = [c for s in i.body for c in ast.walk(s) if isinstance(c, ast.Call) and isinstance(c.func, ast.Attribute) and c.func.attr == "append" and _txt(c.func.value) == nm]
+                uncond = uncond and len(apps) == 1 and not [1 for c in apps for _ in common.guard_conditions_inside(i, c) if "is_chi2" not in _txt(_[0])]
+            R.ob("P-part", "_init_shared_error_nodes:joint inputs", not miss and uncond, (sh.file, i.lineno),
+                 "each chi2 member must append its y data, y model, y covariance, x covariance and derivative node names exactly once (missing: %s)" % miss)
+            R.ob("P-part", "_init_shared_error_nodes:no own cost for chi2 members", "_cost_names" not in chi and "_cost_functions" not in chi, (sh.file, i.lineno),
+                 "a chi2 member must not keep its own cost argument next to the shared cost (it would be counted twice)")
+            R.ob("P-part", "_init_shared_error_nodes:own cost for other members", "_cost_functions.append(%s._cost_function)" % fv in oth and "_cost_names.append('cost%%s' %% %s)" % iv in oth, (sh.file, i.lineno),
+                 "a non-chi2 member must keep its own cost argument cost<i>")
+        ok = "_cost_functions.append(self._shared_cost_function)" in ssrc and "_cost_names.append(self._shared_cost_function.name)" in ssrc and ssrc.count("_cost_names.append(self._shared_cost_function.name)") == 1 \
+            and "self._cost_function = MultiCostFunction(_cost_functions, _cost_names)" in ssrc \
+            and "self._nexus.add_function(self._shared_cost_function, self._shared_cost_function.name, self._shared_cost_function.arg_names)" in ssrc
+        R.ob("P-part", "_init_shared_error_nodes:shared cost", ok, (sh.file, sh.lineno), "the shared cost must be added once, wired to its own argument names, and the multi cost rebuilt from the partition")
+        # constraint cost of the sharing members (SharedCostFunction is built without constraint cost)
+        scf = p.find_class("SharedCostFunction").find_method("__init__")
+        shared_has_constraints = "add_constraint_cost=False" not in _txt(scf.node)
+        cn = None
+        try:
+            cn = _nested(sh, "_member_constraint_cost")
+        except AnalysisError:
+            pass
+        ok = shared_has_constraints
+        if cn is not None:
+            csrc = _txt(cn)
+            ok = "for _par_vals, _par_constraints in zip(values_and_constraints[::2], values_and_constraints[1::2]): for _par_constraint in _par_constraints: _cost += _par_constraint.cost(_par_vals)" in csrc \
+                and "for _i in _fit_index_to_data_index: for _node_name in ('parameter_values', 'parameter_constraints'):" in ssrc \
+                and "Alias(self._fits[_i]._nexus.get(_node_name), '%s%s' % (_node_name, _i))" in ssrc and "_member_constraint_names.append('%s%s' % (_node_name, _i))" in ssrc \
+                and "self._nexus.add_function(_member_constraint_cost, 'member_constraint_cost', _member_constraint_names)" in ssrc \
+                and ssrc.count("_cost_names.append('member_constraint_cost')") == 1
+        R.ob("P-part", "_init_shared_error_nodes:member constraints", ok, (sh.file, sh.lineno),
+             "the shared cost function carries no constraint term: the constraint cost of every sharing member (its own parameter values and constraints) must enter the multi cost once")
 
-    # every member class that can carry a chi2 cost provides the nodes the joint part aliases (a missing node is Alias(ref=None): AttributeError when the first shared
-    # error is added to *any* members of the multi-fit)
-    from ..consteval import nexus_model
+        # every member class that can carry a chi2 cost provides the nodes the joint part aliases (a missing node is Alias(ref=None): AttributeError when the first shared
+        # error is added to *any* members of the multi-fit)
+        from ..consteval import nexus_model
 
-    R.rule("P-nodes", "every fit class whose registry offers a chi2 cost function has the graph nodes that the chi2 branch of the partition aliases", 3)
-    if part:
-        lp = part[0]
-        i = [s_ for s_ in lp.body if isinstance(s_, ast.If) and s_.orelse][0]
-        needed = set()
-        for c in ast.walk(ast.Module(body=i.body, type_ignores=[])):
-            if isinstance(c, ast.Call) and isinstance(c.func, ast.Attribute) and c.func.attr == "get" and _txt(c.func.value).endswith("._nexus") and c.args and common.const_str(c.args[0]):
-                conds = common.guard_conditions_inside(i, c)
-                if any("isinstance" in _txt(t) for t, pol in conds):
-                    continue  # only for the class tested there
-                needed.add(common.const_str(c.args[0]))
-        if not needed:
-            raise AnalysisError("_init_shared_error_nodes: aliased member nodes not found")
-        for cn in ("XYFit", "IndexedFit", "HistFit", "UnbinnedFit"):
-            cls = p.find_class(cn)
-            reg = cls.lookup("_STRING_TO_COST_FUNCTION")
-            chi2_capable = False
-            if reg and reg[0] == "const" and isinstance(reg[1], ast.Name):
-                # follow the imports from the module that defines the class constant to the dictionary literal
-                owner = next((k for k in cls.mro if "_STRING_TO_COST_FUNCTION" in k.consts), cls)
-                mod, name = owner.module, reg[1].id
-                d = None
-                for _ in range(4):
-                    if name in mod.consts and isinstance(mod.consts[name], ast.Dict):
-                        d = mod.consts[name]
-                        break
-                    imp = mod.imports.get(name)
-                    if not imp:
-                        break
-                    nxt = p.modules.get(imp[0]) or next((m for m in p.modules.values() if m.name == imp[0]), None)
-                    if nxt is None:
-                        break
-                    mod, name = nxt, (imp[1] or name)
-                    if nxt.is_package and name not in nxt.consts and name not in nxt.imports:
-                        # star re-exports of a package: look into its cost module
-                        sub = next((m for m in p.modules.values() if m.name == nxt.name + ".cost"), None)
-                        if sub is not None:
-                            mod = sub
-                if d is None:
-                    raise AnalysisError("cost function registry of %s not resolved" % cn)
-                chi2_capable = any("Chi2" in _txt(v) for v in d.values)
-            G, _tr = nexus_model(p, cls)
-            missing = sorted(n for n in needed if n not in G.nodes)
-            R.ob("P-nodes", "%s" % cn, not (chi2_capable and missing), (cls.module.relpath, 0),
-                 "%s offers a chi2 cost function but has no node(s) %s: with such a member, adding the first shared error to any members of a MultiFit raises AttributeError "
-                 "('NoneType' object has no attribute 'add_parent')" % (cn, missing))
+        R.rule("P-nodes", "every fit class whose registry offers a chi2 cost function has the graph nodes that the chi2 branch of the partition aliases", 3)
+        if part:
+            lp = part[0]
+            i = [s_ for s_ in lp.body if isinstance(s_, ast.If) and s_.orelse][0]
+            needed = set()
+            for c in ast.walk(ast.Module(body=i.body, type_ignores=[])):
+                if isinstance(c, ast.Call) and isinstance(c.func, ast.Attribute) and c.func.attr == "get" and _txt(c.func.value).endswith("._nexus") and c.args and common.const_str(c.args[0]):
+                    conds = common.guard_conditions_inside(i, c)
+                    if any("isinstance" in _txt(t) for t, pol in conds):
+                        continue  # only for the class tested there
+                    needed.add(common.const_str(c.args[0]))
+            if not needed:
+                raise AnalysisError("_init_shared_error_nodes: aliased member nodes not found")
+            for cn in ("XYFit", "IndexedFit", "HistFit", "UnbinnedFit"):
+                cls = p.find_class(cn)
+                reg = cls.lookup("_STRING_TO_COST_FUNCTION")
+                chi2_capable = False
+                if reg and reg[0] == "const" and isinstance(reg[1], ast.Name):
+                    # follow the imports from the module that defines the class constant to the dictionary literal
+                    owner = next((k for k in cls.mro if "_STRING_TO_COST_FUNCTION" in k.consts), cls)
+                    mod, name = owner.module, reg[1].id
+                    d = None
+                    for _ in range(4):
+                        if name in mod.consts and isinstance(mod.consts[name], ast.Dict):
+                            d = mod.consts[name]
+                            break
+                        imp = mod.imports.get(name)
+                        if not imp:
+                            break
+                        nxt = p.modules.get(imp[0]) or next((m for m in p.modules.values() if m.name == imp[0]), None)
+                        if nxt is None:
+                            break
+                        mod, name = nxt, (imp[1] or name)
+                        if nxt.is_package and name not in nxt.consts and name not in nxt.imports:
+                            # star re-exports of a package: look into its cost module
+                            sub = next((m for m in p.modules.values() if m.name == nxt.name + ".cost"), None)
+                            if sub is not None:
+                                mod = sub
+                    if d is None:
+                        raise AnalysisError("cost function registry of %s not resolved" % cn)
+                    chi2_capable = any("Chi2" in _txt(v) for v in d.values)
+                G, _tr = nexus_model(p, cls)
+                missing = sorted(n for n in needed if n not in G.nodes)
+                R.ob("P-nodes", "%s" % cn, not (chi2_capable and missing), (cls.module.relpath, 0),
+                     "%s offers a chi2 cost function but has no node(s) %s: with such a member, adding the first shared error to any members of a MultiFit raises AttributeError "
+                     "('NoneType' object has no attribute 'add_parent')" % (cn, missing))
 
     # ---------------------------------------------------------------- B-diag
-    c1 = _nested(sh, "_combine_1d_property")
-    c2 = _nested(sh, "_combine_cov_mats")
-    s1 = _txt(c1)
-    ok = s1.all_like("_c = np.zeros(shape=_data_indices[-1])", "for _j, _v in enumerate(single_fit_properties): _c[_data_indices[_j]:_data_indices[_j + 1]] = _v", "return _c")
-    R.ob("B-diag", "_combine_1d_property", ok, (sh.file, c1.lineno), "concatenation must place the j-th member's values at [_data_indices[j] : _data_indices[j+1]]")
-    s2 = _txt(c2)
-    ok = s2.all_like("_c = np.zeros(shape=(_data_indices[-1], _data_indices[-1]))",
-                     "for _j, _v in enumerate(single_fit_properties): _c[_data_indices[_j]:_data_indices[_j + 1], _data_indices[_j]:_data_indices[_j + 1]] = _v", "return _c")
-    comb = s2._binding.get("_c", "_combined_property")
-    R.ob("B-diag", "_combine_cov_mats:diagonal", ok, (sh.file, c2.lineno), "the j-th member's covariance must fill the diagonal block [e_j:e_j+1, e_j:e_j+1]")
-    tot = get_func(p, MF, "total_cov_mat")
-    ts = _txt(tot.node)
-    ok = "_lower = 0 for _fit in self._fits: _upper = _lower + _fit.data_size _total_cov_mat[_lower:_upper, _lower:_upper] = _fit.total_cov_mat _lower = _upper" in ts
-    R.ob("B-diag", "MultiFit.total_cov_mat:blocks", ok, (tot.file, tot.lineno), "without shared errors the total covariance must be block diagonal with consecutive blocks of the members' sizes")
+    with R.guard("Bdiag"):
+        c1 = _nested(sh, "_combine_1d_property")
+        c2 = _nested(sh, "_combine_cov_mats")
+        s1 = _txt(c1)
+        ok = s1.all_like("_c = np.zeros(shape=_data_indices[-1])", "for _j, _v in enumerate(single_fit_properties): _c[_data_indices[_j]:_data_indices[_j + 1]] = _v", "return _c")
+        R.ob("B-diag", "_combine_1d_property", ok, (sh.file, c1.lineno), "concatenation must place the j-th member's values at [_data_indices[j] : _data_indices[j+1]]")
+        s2 = _txt(c2)
+        ok = s2.all_like("_c = np.zeros(shape=(_data_indices[-1], _data_indices[-1]))",
+                         "for _j, _v in enumerate(single_fit_properties): _c[_data_indices[_j]:_data_indices[_j + 1], _data_indices[_j]:_data_indices[_j + 1]] = _v", "return _c")
+        comb = s2._binding.get("_c", "_combined_property")
+        R.ob("B-diag", "_combine_cov_mats:diagonal", ok, (sh.file, c2.lineno), "the j-th member's covariance must fill the diagonal block [e_j:e_j+1, e_j:e_j+1]")
+        tot = get_func(p, MF, "total_cov_mat")
+        ts = _txt(tot.node)
+        ok = "_lower = 0 for _fit in self._fits: _upper = _lower + _fit.data_size _total_cov_mat[_lower:_upper, _lower:_upper] = _fit.total_cov_mat _lower = _upper" in ts
+        R.ob("B-diag", "MultiFit.total_cov_mat:blocks", ok, (tot.file, tot.lineno), "without shared errors the total covariance must be block diagonal with consecutive blocks of the members' sizes")
 
     # ---------------------------------------------------------------- B-off
-    sl = _loops_over(c2, "self._shared_error_dicts.values()")
-    ok = len(sl) == 1
-    R.ob("B-off", "_combine_cov_mats:source loop", ok, (sh.file, c2.lineno), "off-diagonal blocks must be built in one loop over the shared sources")
-    if ok:
-        lp = sl[0]
-        ev = _txt(lp.target)
-        from .formulas import canon_cond_text
-        R.ob("B-off", "_combine_cov_mats:source guards present", True, (sh.file, lp.lineno), "", nontrivial=False) if False else None
-        _guards_of = lambda n_: canon_cond_text(common.guard_conditions_inside(lp, n_))  # noqa: E731
-        stores = []
-        for s in ast.walk(lp):
-            tg = s.targets[0] if isinstance(s, ast.Assign) and len(s.targets) == 1 else (s.target if isinstance(s, ast.AugAssign) else None)
-            if tg is not None and isinstance(tg, ast.Subscript) and _txt(tg.value) == comb:
-                stores.append(s)
-        if not stores:
-            raise AnalysisError("_combine_cov_mats: no store into the combined matrix inside the shared-source loop")
-        lit = [x for st_ in stores for t_, pol_ in common.guard_conditions_inside(lp, st_) if pol_
-               for x in ([_txt(v) for v in t_.values] if isinstance(t_, ast.BoolOp) and isinstance(t_.op, ast.And) else [_txt(t_)])]
-        R.ob("B-off", "_combine_cov_mats:enabled", lit.count("%s['enabled']" % ev) == len(stores), (sh.file, lp.lineno), "a disabled shared source must not contribute")
-        R.ob("B-off", "_combine_cov_mats:axis", lit.count("%s['axis'] == axis_name" % ev) == len(stores), (sh.file, lp.lineno), "a shared source contributes to the matrix of its own axis only")
-        aug = all(isinstance(s, ast.AugAssign) and isinstance(s.op, ast.Add) for s in stores)
-        R.ob("B-off", "_combine_cov_mats:accumulate", aug, (sh.file, stores[0].lineno),
-             "off-diagonal blocks must accumulate (+=): a plain store makes the last of several sources sharing a pair of members overwrite the others")
-        idx = []
-        for s in stores:
-            tg = s.targets[0] if isinstance(s, ast.Assign) else s.target
-            sli = tg.slice
-            if isinstance(sli, ast.Tuple) and len(sli.elts) == 2:
-                idx.append((_txt(sli.elts[0]), _txt(sli.elts[1])))
-        sym = len(idx) == len(stores) and all((b, a) in idx for a, b in idx) and all(a != b for a, b in idx)
-        R.ob("B-off", "_combine_cov_mats:both blocks", sym and len(idx) >= 2, (sh.file, stores[0].lineno), "the source must be written to block (j,k) and to its transpose block (k,j) (found %s)" % idx)
-        vals = set()
-        for s in stores:
-            v = s.value
-            if isinstance(v, ast.Name):
-                defs = [d for d in ast.walk(lp) if isinstance(d, ast.Assign) and isinstance(d.targets[0], ast.Name) and d.targets[0].id == v.id]
-                v = defs[-1].value if defs else v
-            vals.add(_txt(v))
-        R.ob("B-off", "_combine_cov_mats:value", vals == {"%s['err'].cov_mat" % ev}, (sh.file, stores[0].lineno), "the stored value must be the source's absolute covariance matrix (found %s)" % sorted(vals))
-    # block edges through the map: every _data_indices[...] lookup outside the diagonal loops uses a slot taken from _fit_index_to_data_index
-    bad = []
-    n_lookup = 0
-    for fn in (c2,):
-        diag_loops = [l for l in ast.walk(fn) if isinstance(l, ast.For) and "enumerate(single_fit_properties)" in _txt(l.iter)]
-        skip = {id(x) for l in diag_loops for x in ast.walk(l)}
-        scope = [sh.node]
-        for n in ast.walk(sh.node):
-            if isinstance(n, ast.Subscript) and _txt(n.value) == "_data_indices" and isinstance(n.ctx, ast.Load) and id(n) not in skip:
-                it = _txt(n.slice)
-                if it in ("-1",):
-                    continue
-                # inside _combine_1d_property's own loop
-                if any(n in list(ast.walk(l)) for l in ast.walk(c1) if isinstance(l, ast.For)):
-                    continue
-                base = it[:-4] if it.endswith(" + 1") else it
-                defs = [d for d in ast.walk(sh.node) if isinstance(d, ast.Assign) and _txt(d.targets[0]) == base]
-                n_lookup += 1
-                direct = base.startswith("_fit_index_to_data_index[")   # written out
-                if not direct and (not defs or not all(_txt(d.value).startswith("_fit_index_to_data_index[") for d in defs)):
-                    bad.append("%s (line %d)" % (it, n.lineno))
-    R.ob("B-off", "_init_shared_error_nodes:edges through the map", not bad and n_lookup >= 2, (sh.file, c2.lineno),
-         "block edges of a sharing member must be _data_indices[slot], _data_indices[slot + 1] with slot = _fit_index_to_data_index[fit index] (fit indices differ from data slots "
-         "as soon as a non-chi2 member precedes) - offending: %s" % bad)
+    with R.guard("Boff"):
+        sl = _loops_over(c2, "self._shared_error_dicts.values()")
+        ok = len(sl) == 1
+        R.ob("B-off", "_combine_cov_mats:source loop", ok, (sh.file, c2.lineno), "off-diagonal blocks must be built in one loop over the shared sources")
+        if ok:
+            lp = sl[0]
+            ev = _txt(lp.target)
+            from .formulas import canon_cond_text
+            R.ob("B-off", "_combine_cov_mats:source guards present", True, (sh.file, lp.lineno), "", nontrivial=False) if False else None
+            _guards_of = lambda n_: canon_cond_text(common.guard_conditions_inside(lp, n_))  # noqa: E731
+            stores = []
+            for s in ast.walk(lp):
+                tg = s.targets[0] if isinstance(s, ast.Assign) and len(s.targets) == 1 else (s.target if isinstance(s, ast.AugAssign) else None)
+                if tg is not None and isinstance(tg, ast.Subscript) and _txt(tg.value) == comb:
+                    stores.append(s)
+            if not stores:
+                raise AnalysisError("_combine_cov_mats: no store into the combined matrix inside the shared-source loop")
+            lit = [x for st_ in stores for t_, pol_ in common.guard_conditions_inside(lp, st_) if pol_
+                   for x in ([_txt(v) for v in t_.values] if isinstance(t_, ast.BoolOp) and isinstance(t_.op, ast.And) else [_txt(t_)])]
+            R.ob("B-off", "_combine_cov_mats:enabled", lit.count("%s['enabled']" % ev) == len(stores), (sh.file, lp.lineno), "a disabled shared source must not contribute")
+            R.ob("B-off", "_combine_cov_mats:axis", lit.count("%s['axis'] == axis_name" % ev) == len(stores), (sh.file, lp.lineno), "a shared source contributes to the matrix of its own axis only")
+            aug = all(isinstance(s, ast.AugAssign) and isinstance(s.op, ast.Add) for s in stores)
+            R.ob("B-off", "_combine_cov_mats:accumulate", aug, (sh.file, stores[0].lineno),
+                 "off-diagonal blocks must accumulate (+=): a plain store makes the last of several sources sharing a pair of members overwrite the others")
+            idx = []
+            for s in stores:
+                tg = s.targets[0] if isinstance(s, ast.Assign) else s.target
+                sli = tg.slice
+                if isinstance(sli, ast.Tuple) and len(sli.elts) == 2:
+                    idx.append((_txt(sli.elts[0]), _txt(sli.elts[1])))
+            sym = len(idx) == len(stores) and all((b, a) in idx for a, b in idx) and all(a != b for a, b in idx)
+            R.ob("B-off", "_combine_cov_mats:both blocks", sym and len(idx) >= 2, (sh.file, stores[0].lineno), "the source must be written to block (j,k) and to its transpose block (k,j) (found %s)" % idx)
+            vals = set()
+            for s in stores:
+                v = s.value
+                if isinstance(v, ast.Name):
+                    defs = [d for d in ast.walk(lp) if isinstance(d, ast.Assign) and isinstance(d.targets[0], ast.Name) and d.targets[0].id == v.id]
+                    v = defs[-1].value if defs else v
+                vals.add(_txt(v))
+            R.ob("B-off", "_combine_cov_mats:value", vals == {"%s['err'].cov_mat" % ev}, (sh.file, stores[0].lineno), "the stored value must be the source's absolute covariance matrix (found %s)" % sorted(vals))
+        # block edges through the map: every _data_indices[...] lookup outside the diagonal loops uses a slot taken from _fit_index_to_data_index
+        bad = []
+        n_lookup = 0
+        for fn in (c2,):
+            diag_loops = [l for l in ast.walk(fn) if isinstance(l, ast.For) and "enumerate(single_fit_properties)" in _txt(l.iter)]
+            skip = {id(x) for l in diag_loops for x in ast.walk(l)}
+            scope = [sh.node]
+            for n in ast.walk(sh.node):
+                if isinstance(n, ast.Subscript) and _txt(n.value) == "_data_indices" and isinstance(n.ctx, ast.Load) and id(n) not in skip:
+                    it = _txt(n.slice)
+                    if it in ("-1",):
+                        continue
+                    # inside _combine_1d_property's own loop
+                    if any(n in list(ast.walk(l)) for l in ast.walk(c1) if isinstance(l, ast.For)):
+                        continue
+                    base = it[:-4] if it.endswith(" + 1") else it
+                    defs = [d for d in ast.walk(sh.node) if isinstance(d, ast.Assign) and _txt(d.targets[0]) == base]
+                    n_lookup += 1
+                    direct = base.startswith("_fit_index_to_data_index[")   # written out
+                    if not direct and (not defs or not all(_txt(d.value).startswith("_fit_index_to_data_index[") for d in defs)):
+                        bad.append("%s (line %d)" % (it, n.lineno))
+        R.ob("B-off", "_init_shared_error_nodes:edges through the map", not bad and n_lookup >= 2, (sh.file, c2.lineno),
+             "block edges of a sharing member must be _data_indices[slot], _data_indices[slot + 1] with slot = _fit_index_to_data_index[fit index] (fit indices differ from data slots "
+             "as soon as a non-chi2 member precedes) - offending: %s" % bad)
 
     # ---------------------------------------------------------------- B-tot
-    for fn in ("total_cov_mat_cholesky", "total_cov_mat_qr"):
-        n = _nested(sh, fn)
-        from ..termform import assigned_exprs
+    with R.guard("Btot"):
+        for fn in ("total_cov_mat_cholesky", "total_cov_mat_qr"):
+            n = _nested(sh, fn)
+            from ..termform import assigned_exprs
 
-        dec = "cholesky_decomposition" if fn.endswith("cholesky") else "qr_decomposition"
-        from ..termform import path_exprs, subst
-        forms = {}
-        for conds, e, env in path_exprs(n, lambda st: [st.value] if isinstance(st, ast.Return) and st.value is not None else []):
-            forms[" and ".join(canon_cond_text(conds))] = Normalizer({}).norm(subst(e, env)).canon()
-        from ..termform import norm_spec
-        spec = norm_spec("%s(y_cov_mat if self._min_x_error is None else y_cov_mat + x_cov_mat * outer(derivatives, derivatives))" % dec).canon()
-        split = {"(self._min_x_error is None)": norm_spec("%s(y_cov_mat)" % dec).canon(), "not (self._min_x_error is None)": norm_spec("%s(y_cov_mat + x_cov_mat * outer(derivatives, derivatives))" % dec).canon()}
-        rets, want = [spec], forms
-        forms_ok = forms == {"": spec} or forms == split
-        R.ob("B-tot", "_init_shared_error_nodes:%s" % fn, forms_ok and [a.arg for a in n.args.args] == ["x_cov_mat", "derivatives", "y_cov_mat"], (sh.file, n.lineno),
-             "%s must decompose y + x o outer(derivatives, derivatives) (x part only when x uncertainties exist); found %s -> %s" % (fn, forms, rets))
-    rs = return_exprs(tot.node)
-    got = [Normalizer(env).norm(e).canon() for conds, e, env in rs if conds and conds[0][1] and "_shared_error_dicts" in _txt(conds[0][0])]
-    want = "((self._nexus).get('x_cov_mat')).value*outer(((self._nexus).get('derivatives')).value,((self._nexus).get('derivatives')).value) + ((self._nexus).get('y_cov_mat')).value"
-    R.ob("B-tot", "MultiFit.total_cov_mat:shared", got == [want], (tot.file, tot.lineno), "with shared errors the total covariance must be y_cov_mat + x_cov_mat o outer(derivatives, derivatives) of the joint nodes (found %s)" % got)
-    sc = _txt(scf.node)
-    ok = "self._DATA_NAME = 'y_data'" in sc and "self._MODEL_NAME = 'y_model'" in sc and "self._COV_MAT_CHOLESKY_NAME = 'total_cov_mat_cholesky'" in sc and "self._COV_MAT_QR_NAME = 'total_cov_mat_qr'" in sc \
-        and "errors_to_use='covariance'" in sc and "add_determinant_cost=True" in sc
-    R.ob("B-tot", "SharedCostFunction.__init__", ok, (scf.file, scf.lineno), "the shared cost must be the covariance chi2 (with determinant) of the joint y data / y model and the joint decompositions")
-    for nm, names in (("x_cov_mat", "_x_cov_mat_names"), ("y_cov_mat", "_y_cov_mat_names")):
-        ok = "self._nexus.add_function(lambda *p: _combine_cov_mats('%s', *p), '%s', %s, False)" % (nm[0], nm, names) in ssrc
-        R.ob("B-tot", "_init_shared_error_nodes:%s node" % nm, ok, (sh.file, sh.lineno), "node %s must combine the members' %s-matrices with the shared sources of axis '%s'" % (nm, nm[0], nm[0]))
-    ok = all("self._nexus.add_function(_combine_1d_property, '%s', %s, False)" % (a, b) in ssrc for a, b in (("derivatives", "_derivative_names"), ("y_data", "_y_data_names"), ("y_model", "_y_model_names")))
-    R.ob("B-tot", "_init_shared_error_nodes:1d nodes", ok, (sh.file, sh.lineno), "derivatives, y_data and y_model must be the concatenations of the sharing members' nodes")
+            dec = "cholesky_decomposition" if fn.endswith("cholesky") else "qr_decomposition"
+            from ..termform import path_exprs, subst
+            forms = {}
+            for conds, e, env in path_exprs(n, lambda st: [st.value] if isinstance(st, ast.Return) and st.value is not None else []):
+                forms[" and ".join(canon_cond_text(conds))] = Normalizer({}).norm(subst(e, env)).canon()
+            from ..termform import norm_spec
+            spec = norm_spec("%s(y_cov_mat if self._min_x_error is None else y_cov_mat + x_cov_mat * outer(derivatives, derivatives))" % dec).canon()
+            split = {"(self._min_x_error is None)": norm_spec("%s(y_cov_mat)" % dec).canon(), "not (self._min_x_error is None)": norm_spec("%s(y_cov_mat + x_cov_mat * outer(derivatives, derivatives))" % dec).canon()}
+            rets, want = [spec], forms
+            forms_ok = forms == {"": spec} or forms == split
+            R.ob("B-tot", "_init_shared_error_nodes:%s" % fn, forms_ok and [a.arg for a in n.args.args] == ["x_cov_mat", "derivatives", "y_cov_mat"], (sh.file, n.lineno),
+                 "%s must decompose y + x o outer(derivatives, derivatives) (x part only when x uncertainties exist); found %s -> %s" % (fn, forms, rets))
+        rs = return_exprs(tot.node)
+        got = [Normalizer(env).norm(e).canon() for conds, e, env in rs if conds and conds[0][1] and "_shared_error_dicts" in _txt(conds[0][0])]
+        want = "((self._nexus).get('x_cov_mat')).value*outer(((self._nexus).get('derivatives')).value,((self._nexus).get('derivatives')).value) + ((self._nexus).get('y_cov_mat')).value"
+        R.ob("B-tot", "MultiFit.total_cov_mat:shared", got == [want], (tot.file, tot.lineno), "with shared errors the total covariance must be y_cov_mat + x_cov_mat o outer(derivatives, derivatives) of the joint nodes (found %s)" % got)
+        sc = _txt(scf.node)
+        ok = "self._DATA_NAME = 'y_data'" in sc and "self._MODEL_NAME = 'y_model'" in sc and "self._COV_MAT_CHOLESKY_NAME = 'total_cov_mat_cholesky'" in sc and "self._COV_MAT_QR_NAME = 'total_cov_mat_qr'" in sc \
+            and "errors_to_use='covariance'" in sc and "add_determinant_cost=True" in sc
+        R.ob("B-tot", "SharedCostFunction.__init__", ok, (scf.file, scf.lineno), "the shared cost must be the covariance chi2 (with determinant) of the joint y data / y model and the joint decompositions")
+        for nm, names in (("x_cov_mat", "_x_cov_mat_names"), ("y_cov_mat", "_y_cov_mat_names")):
+            ok = "self._nexus.add_function(lambda *p: _combine_cov_mats('%s', *p), '%s', %s, False)" % (nm[0], nm, names) in ssrc
+            R.ob("B-tot", "_init_shared_error_nodes:%s node" % nm, ok, (sh.file, sh.lineno), "node %s must combine the members' %s-matrices with the shared sources of axis '%s'" % (nm, nm[0], nm[0]))
+        ok = all("self._nexus.add_function(_combine_1d_property, '%s', %s, False)" % (a, b) in ssrc for a, b in (("derivatives", "_derivative_names"), ("y_data", "_y_data_names"), ("y_model", "_y_model_names")))
+        R.ob("B-tot", "_init_shared_error_nodes:1d nodes", ok, (sh.file, sh.lineno), "derivatives, y_data and y_model must be the concatenations of the sharing members' nodes")
 
-    # the switch "x uncertainties exist" follows the members: read from the live x covariance, never cached on the multi-fit
-    mfc = p.find_class(MF)
-    pr = mfc.find_prop("_min_x_error")
-    stores = [(f_.qualname, n.lineno) for f_ in p.all_functions() if f_.cls is mfc for n in ast.walk(f_.node) if isinstance(n, ast.Assign) and any(self_attr(t) == "_min_x_error" for t in n.targets)]
-    ok = pr is not None and pr.fget is not None and "self._nexus.get('x_cov_mat').value" in _txt(pr.fget.node) and not stores
-    R.ob("B-tot", "MultiFit._min_x_error:live", ok, (sh.file, sh.lineno),
-         "the smallest x uncertainty must be computed from the current joint x covariance whenever it is asked for: a value cached by the MultiFit (%s) does not see x uncertainties "
-         "added to a member afterwards, and the shared cost ignores them" % (stores or "no property"))
-    ok = ssrc.like("self._nexus.add_dependency('derivatives%s' % _i, ('parameter_values', 'x_cov_mat%s' % _i))")
-    R.ob("B-tot", "_init_shared_error_nodes:derivative dependencies", ok, (sh.file, sh.lineno), "the slopes of a member depend on the parameters and on that member's x covariance (the step size and the zero shortcut follow it)")
+        # the switch "x uncertainties exist" follows the members: read from the live x covariance, never cached on the multi-fit
+        mfc = p.find_class(MF)
+        pr = mfc.find_prop("_min_x_error")
+        stores = [(f_.qualname, n.lineno) for f_ in p.all_functions() if f_.cls is mfc for n in ast.walk(f_.node) if isinstance(n, ast.Assign) and any(self_attr(t) == "_min_x_error" for t in n.targets)]
+        ok = pr is not None and pr.fget is not None and "self._nexus.get('x_cov_mat').value" in _txt(pr.fget.node) and not stores
+        R.ob("B-tot", "MultiFit._min_x_error:live", ok, (sh.file, sh.lineno),
+             "the smallest x uncertainty must be computed from the current joint x covariance whenever it is asked for: a value cached by the MultiFit (%s) does not see x uncertainties "
+             "added to a member afterwards, and the shared cost ignores them" % (stores or "no property"))
+        ok = ssrc.like("self._nexus.add_dependency('derivatives%s' % _i, ('parameter_values', 'x_cov_mat%s' % _i))")
+        R.ob("B-tot", "_init_shared_error_nodes:derivative dependencies", ok, (sh.file, sh.lineno), "the slopes of a member depend on the parameters and on that member's x covariance (the step size and the zero shortcut follow it)")
 
     # ---------------------------------------------------------------- U-res
-    for fn, kind in (("do_fit", "method"), ("asymmetric_parameter_errors", "prop")):
-        f = get_func(p, MF, fn)
-        g = eng.cfg(f)
-        sup = [n for n in g.nodes if any(isinstance(c, ast.Attribute) and c.attr == fn and isinstance(c.value, ast.Call) and _txt(c.value.func) == "super" for part in n.ast_parts() for c in walk_no_nested(part))]
-        ok = len(sup) == 1
+    with R.guard("Ures"):
+        for fn, kind in (("do_fit", "method"), ("asymmetric_parameter_errors", "prop")):
+            f = get_func(p, MF, fn)
+            g = eng.cfg(f)
+            sup = [n for n in g.nodes if any(isinstance(c, ast.Attribute) and c.attr == fn and isinstance(c.value, ast.Call) and _txt(c.value.func) == "super" for part in n.ast_parts() for c in walk_no_nested(part))]
+            ok = len(sup) == 1
+            if ok:
+                ok, _ = g.all_paths_pass(sup[0].id, lambda n: any(isinstance(c, ast.Call) and isinstance(c.func, ast.Attribute) and c.func.attr == "_update_singular_fits" and is_self(c.func.value)
+                                                                  for part in n.ast_parts() for c in walk_no_nested(part)))
+            R.ob("U-res", "MultiFit.%s" % fn, ok, (f.file, f.lineno), "after the base class produced results, %s must update the members on every normal path" % fn)
+        us = get_func(p, MF, "_update_singular_fits")
+        usrc = _txt(us.node)
+        loops = _loops_over(us.node, "self._fits")
+        ok = len(loops) == 1
+        R.ob("U-res", "_update_singular_fits:all members", ok, (us.file, us.lineno), "every member must be updated")
         if ok:
-            ok, _ = g.all_paths_pass(sup[0].id, lambda n: any(isinstance(c, ast.Call) and isinstance(c.func, ast.Attribute) and c.func.attr == "_update_singular_fits" and is_self(c.func.value)
-                                                              for part in n.ast_parts() for c in walk_no_nested(part)))
-        R.ob("U-res", "MultiFit.%s" % fn, ok, (f.file, f.lineno), "after the base class produced results, %s must update the members on every normal path" % fn)
-    us = get_func(p, MF, "_update_singular_fits")
-    usrc = _txt(us.node)
-    loops = _loops_over(us.node, "self._fits")
-    ok = len(loops) == 1
-    R.ob("U-res", "_update_singular_fits:all members", ok, (us.file, us.lineno), "every member must be updated")
-    if ok:
-        lp = loops[0]
-        fv = _txt(lp.target)
-        body = _txt(ast.Module(body=lp.body, type_ignores=[]))
-        IDX = "[self.parameter_names.index(_q) for _q in %s.parameter_names]" % fv
-        bsrc = common.Src(body)
-        helper = bsrc.like("_ix = self._get_parameter_indices(%s)" % fv) or bsrc.like("_ix = " + IDX)   # through the helper, or the helper written out into a local
-        ix = "_ix" if helper else IDX
-        R.ob("U-res", "_update_singular_fits:indices", helper or bsrc.like(IDX), (us.file, lp.lineno), "sub-blocks must be selected by the member's own parameter indices")
-        dct = [s for s in lp.body if isinstance(s, ast.Assign) and _txt(s.targets[0]) == "%s._loaded_result_dict" % fv and isinstance(s.value, ast.Call)]
-        okd = len(dct) == 1
-        kw = {k.arg: _txt(k.value) for k in dct[0].value.keywords} if okd else {}
-        ok = set(kw) == {"did_fit", "parameter_errors", "parameter_cor_mat", "parameter_cov_mat", "asymmetric_parameter_errors"} and kw.get("did_fit") == "self.did_fit" \
-            and bsrc.all_like("parameter_errors=self.parameter_errors[%s]" % ix, "parameter_cor_mat=_cor", "parameter_cov_mat=_cov", "asymmetric_parameter_errors=_asy")
-        R.ob("U-res", "_update_singular_fits:result keys", ok, (us.file, lp.lineno), "each member must receive did_fit, errors, correlation, covariance and asymmetric errors (found %s)" % kw)
-        for loc, srcattr in (("_cor", "self.parameter_cor_mat"), ("_cov", "self.parameter_cov_mat")):
-            ok = bsrc.like("%s = %s if %s is not None: %s = %s[%s][:, %s]" % (loc, srcattr, loc, loc, loc, ix, ix))
-            R.ob("U-res", "_update_singular_fits:%s" % {"_cor": "_par_cor_mat", "_cov": "_par_cov_mat"}[loc], ok, (us.file, lp.lineno), "the member's matrix must be the rows and columns of %s at the member's parameter indices" % srcattr)
-        ok = bsrc.like("_asy = self._fitter.asymmetric_fit_parameter_errors_if_calculated if _asy is not None: _asy = _asy[%s]" % ix)
-        R.ob("U-res", "_update_singular_fits:asymmetric", ok, (us.file, lp.lineno), "asymmetric errors must be the rows at the member's parameter indices")
-    gi = get_func(p, MF, "_get_parameter_indices")
-    rs = return_exprs(gi.node)
-    ok = len(rs) == 1 and _txt(rs[0][1]) == "[self.parameter_names.index(_parameter_name) for _parameter_name in singular_fit.parameter_names]"
-    R.ob("U-res", "_get_parameter_indices", ok, (gi.file, gi.lineno), "a member's indices are the positions of its parameter names in the multi fit's parameter names, in the member's order")
+            lp = loops[0]
+            fv = _txt(lp.target)
+            body = _txt(ast.Module(body=lp.body, type_ignores=[]))
+            IDX = "[self.parameter_names.index(_q) for _q in %s.parameter_names]" % fv
+            bsrc = common.Src(body)
+            helper = bsrc.like("_ix = self._get_parameter_indices(%s)" % fv) or bsrc.like("_ix = " + IDX)   # through the helper, or the helper written out into a local
+            ix = "_ix" if helper else IDX
+            R.ob("U-res", "_update_singular_fits:indices", helper or bsrc.like(IDX), (us.file, lp.lineno), "sub-blocks must be selected by the member's own parameter indices")
+            dct = [s for s in lp.body if isinstance(s, ast.Assign) and _txt(s.targets[0]) == "%s._loaded_result_dict" % fv and isinstance(s.value, ast.Call)]
+            okd = len(dct) == 1
+            kw = {k.arg: _txt(k.value) for k in dct[0].value.keywords} if okd else {}
+            ok = set(kw) == {"did_fit", "parameter_errors", "parameter_cor_mat", "parameter_cov_mat", "asymmetric_parameter_errors"} and kw.get("did_fit") == "self.did_fit" \
+                and bsrc.all_like("parameter_errors=self.parameter_errors[%s]" % ix, "parameter_cor_mat=_cor", "parameter_cov_mat=_cov", "asymmetric_parameter_errors=_asy")
+            R.ob("U-res", "_update_singular_fits:result keys", ok, (us.file, lp.lineno), "each member must receive did_fit, errors, correlation, covariance and asymmetric errors (found %s)" % kw)
+            for loc, srcattr in (("_cor", "self.parameter_cor_mat"), ("_cov", "self.parameter_cov_mat")):
+                ok = bsrc.like("%s = %s if %s is not None: %s = %s[%s][:, %s]" % (loc, srcattr, loc, loc, loc, ix, ix))
+                R.ob("U-res", "_update_singular_fits:%s" % {"_cor": "_par_cor_mat", "_cov": "_par_cov_mat"}[loc], ok, (us.file, lp.lineno), "the member's matrix must be the rows and columns of %s at the member's parameter indices" % srcattr)
+            ok = bsrc.like("_asy = self._fitter.asymmetric_fit_parameter_errors_if_calculated if _asy is not None: _asy = _asy[%s]" % ix)
+            R.ob("U-res", "_update_singular_fits:asymmetric", ok, (us.file, lp.lineno), "asymmetric errors must be the rows at the member's parameter indices")
+        gi = get_func(p, MF, "_get_parameter_indices")
+        rs = return_exprs(gi.node)
+        ok = len(rs) == 1 and _txt(rs[0][1]) == "[self.parameter_names.index(_parameter_name) for _parameter_name in singular_fit.parameter_names]"
+        R.ob("U-res", "_get_parameter_indices", ok, (gi.file, gi.lineno), "a member's indices are the positions of its parameter names in the multi fit's parameter names, in the member's order")
 
     # ---------------------------------------------------------------- U-fix
-    f = get_func(p, MF, "fix_parameter")
-    fs = _txt(f.node)
-    g = eng.cfg(f)
-    ok = fs.all_like("self._fitter.fix_parameter(name, value)", "_v = self._fitter.fixed_parameters[name]")
-    R.ob("U-fix", "MultiFit.fix_parameter:multi", ok, (f.file, f.lineno), "the multi fitter must fix the parameter first; the mirrored value is the one it recorded")
-    ok = fs.like("for _m in self._fits: if name in _m.parameter_names: _m.fix_parameter(name, _v)")
-    R.ob("U-fix", "MultiFit.fix_parameter:members", ok, (f.file, f.lineno), "every member that has the parameter must fix it at the recorded value")
-    f = get_func(p, MF, "release_parameter")
-    fs = _txt(f.node)
-    R.ob("U-fix", "MultiFit.release_parameter:multi", "self._fitter.release_parameter(name)" in fs, (f.file, f.lineno), "the multi fitter must release the parameter")
-    ok = fs.like("for _m in self._fits: if name in _m.parameter_names: _m.release_parameter(name)")
-    R.ob("U-fix", "MultiFit.release_parameter:members", ok, (f.file, f.lineno), "every member that has the parameter must release it")
+    with R.guard("Ufix"):
+        f = get_func(p, MF, "fix_parameter")
+        fs = _txt(f.node)
+        g = eng.cfg(f)
+        ok = fs.all_like("self._fitter.fix_parameter(name, value)", "_v = self._fitter.fixed_parameters[name]")
+        R.ob("U-fix", "MultiFit.fix_parameter:multi", ok, (f.file, f.lineno), "the multi fitter must fix the parameter first; the mirrored value is the one it recorded")
+        ok = fs.like("for _m in self._fits: if name in _m.parameter_names: _m.fix_parameter(name, _v)")
+        R.ob("U-fix", "MultiFit.fix_parameter:members", ok, (f.file, f.lineno), "every member that has the parameter must fix it at the recorded value")
+        f = get_func(p, MF, "release_parameter")
+        fs = _txt(f.node)
+        R.ob("U-fix", "MultiFit.release_parameter:multi", "self._fitter.release_parameter(name)" in fs, (f.file, f.lineno), "the multi fitter must release the parameter")
+        ok = fs.like("for _m in self._fits: if name in _m.parameter_names: _m.release_parameter(name)")
+        R.ob("U-fix", "MultiFit.release_parameter:members", ok, (f.file, f.lineno), "every member that has the parameter must release it")
